@@ -5,6 +5,7 @@ import (
 	"time"
 
 	"github.com/apache/thrift/lib/go/thrift"
+	"github.com/nats-io/nats.go"
 )
 
 // C01: under multiplexing every RPC gets exactly its own response.
@@ -143,5 +144,88 @@ func VerifC01_AdapterCorrelation() {
 	left := len(reg.channels)
 	reg.mu.RUnlock()
 	verifAssert(left == 0, "no registration is left behind")
+	verifReach("end")
+}
+
+func init() {
+	verifHarnesses["VerifC01_NatsRouting"] = VerifC01_NatsRouting
+	verifHarnesses["VerifC01_SequentialReuse"] = VerifC01_SequentialReuse
+}
+
+// (c) NATS client transport: a message is routed by the op id INSIDE the frame
+// (or, for a 503 status message, by the reply-subject suffix), whatever reply
+// subject it arrives on. One step from an arbitrary registry.
+func VerifC01_NatsRouting() {
+	filler := []byte{0xEE}
+	tr := &fNatsTransport{fBaseTransport: newFBaseTransport(0), inbox: "in"}
+	reg := tr.registry.(*fRegistryImpl)
+	verifHavocChanMap(reg.channels, filler)
+	frameOp := verifStr(1 + verifChoice(2))   // op id inside the frame
+	subjectOp := verifStr(1 + verifChoice(2)) // suffix of the subject the message arrives on
+	fk, ferr := getOpID(verifCtxWithOpID(frameOp))
+	sk, serr := getOpID(verifCtxWithOpID(subjectOp))
+	var fch, sch chan []byte
+	var fhad, shad bool
+	if ferr == nil {
+		fch, fhad = reg.channels[fk]
+	}
+	if serr == nil {
+		sch, shad = reg.channels[sk]
+	}
+	fbefore, sbefore := verifChanLen(fch), verifChanLen(sch)
+	msg := &nats.Msg{Subject: "in." + subjectOp}
+	status503 := verifParam() == 1
+	if status503 {
+		msg.Header = nats.Header{"Status": []string{"503"}}
+	} else {
+		msg.Data = verifResponseFrame(frameOp, []byte{7})
+	}
+	tr.handler(msg)
+	if status503 {
+		if serr == nil && shad && sbefore == 0 {
+			verifReach("503-delivered")
+			verifAssert(verifChanLen(sch) == 1, "a 503 for a reply subject reaches the request that used that subject")
+		}
+	} else {
+		if ferr == nil && fhad && fbefore == 0 {
+			verifReach("frame-delivered")
+			verifAssert(verifChanLen(fch) == 1, "the frame reaches the request whose op id it carries")
+		}
+		if serr == nil && shad && (ferr != nil || sk != fk) {
+			verifReach("foreign-subject")
+			verifAssert(verifChanLen(sch) == sbefore, "the request that merely owns the reply subject receives nothing")
+		}
+	}
+	verifReach("end")
+}
+
+// (d) requests issued one after the other on one transport, with duplicates of
+// the earlier response arriving at any time: the later request completes only
+// with its own frame (nothing of an earlier request may survive in whatever the
+// transport reuses).
+func VerifC01_SequentialReuse() {
+	pipe := newVerifPipe()
+	ft := NewAdapterTransport(pipe)
+	verifAssert(ft.Open() == nil, "open")
+	ca := NewFContext("a")
+	ca.SetTimeout(0)
+	da := make(chan verifResult, 1)
+	go verifRequest(ft, ca, da)
+	<-pipe.sent
+	dups := 1 + verifParam()
+	for i := 0; i < dups; i++ {
+		pipe.feed(verifResponseFrame(verifOpID(ca), []byte{1}))
+	}
+	ra := <-da
+	verifAssert(ra.err == nil && ra.opid == verifOpID(ca), "request A completes with its own frame")
+	verifYield("between-requests")
+	cb := NewFContext("b")
+	cb.SetTimeout(0)
+	db := make(chan verifResult, 1)
+	go verifRequest(ft, cb, db)
+	<-pipe.sent
+	pipe.feed(verifResponseFrame(verifOpID(cb), []byte{2}))
+	rb := <-db
+	verifAssert(rb.err == nil && rb.opid == verifOpID(cb) && len(rb.data) == 1 && rb.data[0] == 2, "request B completes only with its own frame")
 	verifReach("end")
 }
